@@ -21,3 +21,20 @@ def run(chk):
     machine.replay_family(chk, cases)
     # direction B: scope and variable events of these programs and of repository programs against ScopeStack.tla
     scopetrace.run(chk, cases)
+    first = chk.extra.get("scope_traces")
+    # ... and of programs nobody wrote for this property: the token edits of valid programs (FamMutate) that the real
+    # parser accepts (the recorder skips the others)
+    from . import common
+    import random
+    rnd = random.Random(common.seed())
+    npos = 260
+    e1 = {kind * 1000000 + i * 100 for kind in (1, 4, 5) for i in range(npos)}
+    for _ in range(2500 if chk.tier == "quick" else 20000):
+        e1.add(rnd.choice((2, 3)) * 1000000 + rnd.randrange(npos) * 100 + rnd.randrange(40))
+    tlaset = lambda xs: "{" + ", ".join(str(x) for x in sorted(xs)) + "}"
+    resm = common.run_tlc("FamMutate", "FamMutate.cfg", defines={"TIER": chk.tier, "EDITS1": tlaset(e1), "EDITS2": "{}",
+                                                                 "HEADERS": "{}", "HEADERS2": "{}"}, timeout=1800)
+    chk.add_tlc(resm, "FamMutate")
+    scopetrace.run(chk, [{"src": c["src"], "class": "edited/seed%d" % c["seed"]} for c in resm.cases], model=False, corpus=0)
+    chk.extra["scope_traces_of_token_edits"] = chk.extra.get("scope_traces")
+    chk.extra["scope_traces"] = first
